@@ -77,6 +77,8 @@ SameLens(lens, tb) ==
 CutFile(c, x) == LET i == CHOOSE i \in 1..Len(c.dat) : c.dat[i].fno = x IN c.dat[i]
 (* the recorded durable/current lengths are the model's *)
 CutLensOK(c, ts) ==
+  /\ (c.meta = "torn" => MetaLen(ts.meta.vol) > MetaLen(ts.meta.dur) /\ MetaLen(ts.meta.dur) > 0
+                         /\ c.mlen = <<MetaLen(ts.meta.dur), MetaLen(ts.meta.vol)>>)
   /\ c.idx.dur = 6 * Len(ts.idx.dur) /\ c.idx.vol = 6 * Len(ts.idx.vol)
   /\ {c.dat[i].fno : i \in 1..Len(c.dat)} = Files(ts)
   /\ \A i \in 1..Len(c.dat) : c.dat[i].dur = FLen(ts.dat[c.dat[i].fno].dur) /\ c.dat[i].vol = FLen(ts.dat[c.dat[i].fno].vol)
@@ -150,8 +152,8 @@ TImage == Step_(/\ Ev.op = "image"
                 /\ UNCHANGED <<tab, g, pend, rep>>)
 (* TODO-KNOWN-FINDING (C24-F1, C24-F2): an image the real NewFreezer refused to open is accepted as    *)
 (* pending iff the specification computes a failure of exactly one of the two known kinds for it      *)
-KnownFailure(o) == FailedOf(o.tabs) /\ (KnownF1(o.tabs) \/ KnownF2(o.tabs))
-WhichKnown(o) == IF KnownF1(o.tabs) THEN "C24-F1" ELSE "C24-F2"
+KnownFailure(o) == FailedOf(o.tabs) /\ (KnownF3(o.tabs) \/ KnownF1(o.tabs) \/ KnownF2(o.tabs))
+WhichKnown(o) == IF KnownF3(o.tabs) THEN "C24-F3" ELSE IF KnownF1(o.tabs) THEN "C24-F1" ELSE "C24-F2"
 TImageKnown == Step_(/\ Ev.op = "image" /\ ~Ev.res.ok
                      /\ \E o \in {OpenAll(Crashed(Ev.cuts))} :
                           /\ \A t \in Tables : CutLensOK(Ev.cuts[t], tab[t])
